@@ -1,4 +1,5 @@
 """C08 - arguments reach the task function unchanged and bound to the right parameters."""
+import copy
 import json
 
 import common as C
@@ -34,7 +35,10 @@ META = dict(
          "non-trivial iff an un-annotated or Any parameter precedes an annotated one, or there is a keyword-only or dependency "
          "parameter, or a consulted conversion fails; distinct by canonical JSON of the case. A group case = a sequence of such "
          "calls run in ONE driver process over same-named annotation classes built for the group (each call judged on its own); "
-         "non-trivial iff the implementation converted values for at least two different classes of one name",
+         "non-trivial iff the implementation converted values for at least two different classes of one name. A registry case = a "
+         "sequence of registrations (worker broker / shared task / producer-side broker, functions sharing a task name), the "
+         "construction of the worker's Receiver and calls in ONE driver process, each call judged by the signature of the "
+         "function whose body ran; non-trivial iff a called name had at least two different function definitions registered",
     trusted_base=["model: coq/theories/Params.v (hand-written transcription of parse_params, run_task's call assembly, CPython "
                   "argument binding, kicker._prepare_message, formatter composition)",
                   "parse_obj_as (pydantic) = Section variable `conv`, instantiated per case by a table of pydantic's own answers "
@@ -573,6 +577,320 @@ def twin_table_cases():
     return out
 
 
+# --------------------------------------------------------------------------- groups of calls around a task registry
+# One case = a SEQUENCE in one driver process around one worker broker and ONE Receiver (see the driver): several
+# function definitions, registration events (on the worker broker itself / as a shared task in the process-wide global
+# registry / on another, producer-side broker; explicit or derived task name; decorator or register_task), the point at
+# which the worker's Receiver is constructed (before, between or after the registrations) and calls.  Functions that
+# share a task name differ in annotations, parameter order, defaults / dependencies, or not at all.  The property
+# speaks about "the task function": the function whose body really ran (each body logs to its own list) - every call
+# is judged on its own by THAT function's signature, and that function must be one registered under the message's
+# task name.  On the unchanged tree the function that runs is the broker's own latest registration of the name, else
+# the latest shared one (find_task: "local task wins").
+# Held out of the generated stream (observation, corpus/C08/obs_registry_*.json): a registration that CHANGES which
+# function a name resolves to after the Receiver has prepared that name - the receiver keeps the signature it saw.
+REG_NAMES = ["t", "lib:handle", "app.tasks:send", None]      # None: no task_name given (derived "<module>:f")
+REANN_W = [(None, 30), ("Any", 10), ("int", 20), ("str", 8), ("float", 6), ("bool", 5), ("List[int]", 5), ("M1", 6),
+           ("D1", 4), ("Optional[int]", 4), ("NZ", 2)]
+
+
+def fix_params(params):
+    """keep a varied signature a valid `def`: no required positional parameter behind a defaulted one"""
+    seen = False
+    for p in params:
+        if p["kind"] != "pos":
+            continue
+        if seen:
+            if p["dep"] == "annotated":
+                p["dep"] = "default"
+            elif p["dep"] is None:
+                p["default"] = True
+        seen = seen or p["default"] or p["dep"] in ("default", "context")
+    return params
+
+
+def fn_variant(r, base, how):
+    """another function for the same task name"""
+    if how == "indep":
+        c = gen_case(r)
+        return dict(params=c["params"], ret=c["ret"], **{"async": c["async"]})
+    fd = copy.deepcopy(dict(params=base["params"], ret=base["ret"], **{"async": base["async"]}))
+    if how == "same":
+        return fd
+    ps = fd["params"]
+    if r.random() < .3:
+        fd["async"] = not fd["async"]
+    if how == "perm":
+        pos = [p for p in ps if p["kind"] == "pos"]
+        r.shuffle(pos)
+        rest = [p for p in ps if p["kind"] != "pos"]
+        vp = [p for p in rest if p["kind"] == "varpos"]
+        fd["params"] = ps = pos + vp + [p for p in rest if p["kind"] != "varpos"]
+    for p in ps:
+        if p["dep"] == "context":
+            continue
+        if how == "redep" and p["kind"] in ("pos", "kw") and r.random() < .5:
+            if p["dep"]:
+                p["dep"], p["default"] = None, r.random() < .6
+            else:
+                p["dep"], p["default"] = "default", False
+        if (how == "reann" and r.random() < .7) or (how != "reann" and r.random() < .25):
+            old = p["ann"]
+            for _ in range(6):
+                p["ann"] = wchoice(r, REANN_W)
+                if p["ann"] != old:
+                    break
+        if p["dep"] == "annotated" and p["ann"] is None:
+            p["ann"] = "int"
+    fix_params(ps)
+    return fd
+
+
+def vis(local, glob, name):
+    return local[name] if name in local else glob.get(name)
+
+
+def mixed_call(r, target, others, conf):
+    """a call generated for `target`'s signature; each value is aimed at the annotation the target OR a same-named other
+    function gives the parameter of that name, so that the two signatures convert it differently"""
+    tmp = copy.deepcopy(dict(params=target["params"]))
+    byname = {}
+    for o in others:
+        for p in o["params"]:
+            byname.setdefault(p["name"], []).append(p["ann"])
+    for p in tmp["params"]:
+        if p["name"] in byname and r.random() < .5:
+            p["ann"] = r.choice(byname[p["name"]])
+    gen_call(r, tmp)
+    st = dict(params=copy.deepcopy(target["params"]), ret=target["ret"], args=tmp["args"], kwargs=tmp["kwargs"],
+              **{"async": target["async"]})
+    set_conf(st, conf)
+    return st
+
+
+def assemble_registry(r, fns, regs, rpos, ncalls, conf, stale_ok=False):
+    """events = regs[:rpos] + receiver + the remaining registrations interleaved with `ncalls` calls.  A registration
+    that would change what an already prepared name resolves to is dropped unless stale_ok (see the header)."""
+    local, glob, anyreg = {}, {}, {}
+    events, steps, nreg = [], [], 0
+    stale = False
+
+    def apply(ev):
+        nonlocal nreg
+        if ev["where"] == "local":
+            local[ev["name"]] = ev["fn"]
+        elif ev["where"] == "shared":
+            glob[ev["name"]] = ev["fn"]
+        anyreg.setdefault(ev["name"], []).append((nreg, ev))
+        nreg += 1
+        events.append(ev)
+
+    for ev in regs[:rpos]:
+        apply(ev)
+    events.append({"ev": "receiver"})
+    known = set(local) | set(glob)
+    pending = list(regs[rpos:])
+    left = ncalls
+    while pending or left:
+        if pending and (not left or r.random() < .5):
+            ev = pending.pop(0)
+            if ev["where"] != "other" and ev["name"] in known:
+                old = vis(local, glob, ev["name"])
+                new = ev["fn"] if ev["where"] == "local" or ev["name"] not in local else old
+                if new != old:
+                    if not stale_ok:
+                        continue
+                    stale = True
+            apply(ev)
+            continue
+        names = sorted({n for n in list(local) + list(glob)}, key=str)
+        if not names:
+            if not pending:
+                break
+            apply(pending.pop(0))
+            continue
+        n = r.choice(names)
+        target = vis(local, glob, n)
+        cands = sorted({x for x in (local.get(n), glob.get(n)) if x is not None})
+        same_named = sorted({e["fn"] for _, e in anyreg[n]})
+        via = r.choice(anyreg[n])[0]
+        st = mixed_call(r, fns[target], [fns[i] for i in same_named if i != target], conf)
+        st.update(name=n, via=via, target=target, candidates=cands, same_named=same_named)
+        events.append({"ev": "call", "step": len(steps)})
+        steps.append(st)
+        known.add(n)
+        left -= 1
+    g = dict(fns=fns, events=events, steps=steps)
+    g["fmt"], g["ser"], g["validate"] = conf
+    return g, stale
+
+
+def gen_registry_group(r, stale_ok=False):
+    for _ in range(50):
+        conf = (r.choice(["proxy", "proxy", "json"]), r.choice(["json", "json", "pickle"]), r.random() < .9)
+        names = r.sample(REG_NAMES, r.choice([1, 1, 2, 2, 3]))
+        fns, regs = [], []
+        for n in names:
+            c = gen_case(r)
+            base = dict(params=c["params"], ret=c["ret"], **{"async": c["async"]})
+            fam = [base] + [fn_variant(r, base, wchoice(r, [("reann", 5), ("perm", 2), ("redep", 2), ("indep", 1), ("same", 1)]))
+                            for _ in range(r.choice([0, 1, 1, 1, 2]))]
+            first = len(fns)
+            fns += fam
+            places = [wchoice(r, [("local", 45), ("shared", 35), ("other", 20)]) for _ in fam]
+            if all(w == "other" for w in places):
+                places[0] = r.choice(["local", "shared"])
+            if len(fam) >= 2 and r.random() < .5:          # the override: one shared, one on the broker itself
+                places[0], places[1] = r.sample(["local", "shared"], 2)
+            for k, w in enumerate(places):
+                regs.append(dict(ev="reg", fn=first + k, where=w, name=n, how=r.choice(["register", "decorator"])))
+                # the same function registered a second time elsewhere (explicit names only: registering renames the
+                # function to f__taskiq_original, so a second derived name would be another one)
+                if n is not None and r.random() < .15:
+                    regs.append(dict(ev="reg", fn=first + k, where=r.choice(["local", "shared", "other"]), name=n,
+                                     how=r.choice(["register", "decorator"])))
+        r.shuffle(regs)
+        k = r.random()
+        rpos = len(regs) if k < .6 else 0 if k < .75 else r.randint(0, len(regs))
+        g, stale = assemble_registry(r, fns, regs, rpos, r.choice([2, 3, 3, 4, 5]), conf, stale_ok)
+        if g["steps"] and (stale or not stale_ok):
+            if stale:
+                g["observation"] = True
+            return g
+    raise RuntimeError("no registry group generated")
+
+
+def P(name, kind="pos", ann=None, default=False, dep=None):
+    return dict(name=name, kind=kind, ann=ann, default=default, dep=dep)
+
+
+REG_PAIRS = [
+    # (function A, function B, positional values, keyword values): A and B convert / fill the same call differently
+    ([P("a", ann="int"), P("b", ann="M1")], [P("a"), P("b", ann="Any")], ["5", {"x": "3"}], {}),
+    ([P("a"), P("b", ann="Any", default=True)], [P("a", ann="int"), P("b", ann="M1", default=True)], ["5"], {"b": {"x": "3", "y": "z"}}),
+    ([P("a", ann="int"), P("b", ann="str")], [P("b", ann="str"), P("a", ann="int")], ["7", "8"], {}),
+    ([P("a", ann="List[int]"), P("d", "kw", dep="default")], [P("a", ann="str"), P("d", "kw", default=True)], [["1", "2"]], {}),
+    ([P("a", ann="float"), P("c", "kw", ann="bool", default=True)], [P("a", ann="str"), P("c", "kw", default=True)], ["1.5"], {"c": "yes"}),
+]
+REG_LAYOUTS = [
+    # registrations (function, where) in order; the LAST local one, else the last shared one, is what the name resolves to
+    [("A", "shared"), ("B", "local")], [("B", "local"), ("A", "shared")], [("A", "local"), ("B", "local")],
+    [("A", "shared"), ("B", "shared")], [("B", "local"), ("A", "other")], [("B", "shared"), ("A", "other")],
+    [("B", "shared")], [("A", "shared"), ("B", "local"), ("A", "other")],
+]
+
+
+def registry_table_cases():
+    """every pair of REG_PAIRS x every layout of REG_LAYOUTS, in both roles (A/B swapped): receiver constructed after all
+    registrations (one in five before them, as InMemoryBroker does), one more task of another name on the broker, two
+    calls through different task objects of the name"""
+    combos = [("proxy", "json"), ("json", "json"), ("proxy", "pickle")]
+    out, n = [], 0
+    for pa, pb, args, kw in REG_PAIRS:
+        for lay in REG_LAYOUTS:
+            for swap in (False, True):
+                n += 1
+                fmt, ser = combos[n % 3]
+                conf = (fmt, ser, n % 11 != 0)
+                fa = dict(params=copy.deepcopy(pb if swap else pa), ret=None, **{"async": n % 2 == 0})
+                fb = dict(params=copy.deepcopy(pa if swap else pb), ret=None, **{"async": n % 3 != 0})
+                ctl = dict(params=[P("a", ann="int"), P("k", "kw", default=True)], ret=None, **{"async": True})
+                fns = [fa, fb, ctl]
+                name = REG_NAMES[n % len(REG_NAMES)]
+                if name is None and len({f for f, _ in lay}) < len(lay):
+                    name = "t"          # a function registered twice gets two different derived names (see gen_registry_group)
+                regs = [dict(ev="reg", fn=0 if f == "A" else 1, where=w, name=name, how=["register", "decorator"][(n + i) % 2])
+                        for i, (f, w) in enumerate(lay)]
+                regs.insert(n % (len(regs) + 1), dict(ev="reg", fn=2, where="local", name="control", how="decorator"))
+                events = regs + [{"ev": "receiver"}] if n % 5 else [{"ev": "receiver"}] + regs
+                local, glob = {}, {}
+                for e in regs:
+                    if e["where"] != "other":
+                        (local if e["where"] == "local" else glob)[e["name"]] = e["fn"]
+                target = vis(local, glob, name)
+                idx = [i for i, e in enumerate(regs) if e["name"] == name]
+                steps = []
+                for j in range(2):
+                    st = dict(params=copy.deepcopy(fns[target]["params"]), ret=None, args=[J(v) for v in args],
+                              kwargs=[[k, J(v)] for k, v in kw.items()], name=name, via=idx[(n + j) % len(idx)], target=target,
+                              candidates=sorted({x for x in (local.get(name), glob.get(name)) if x is not None}),
+                              same_named=sorted({regs[i]["fn"] for i in idx}), **{"async": fns[target]["async"]})
+                    set_conf(st, conf)
+                    steps.append(st)
+                    events.append({"ev": "call", "step": j})
+                ci = [i for i, e in enumerate(regs) if e["name"] == "control"][0]
+                st = dict(params=copy.deepcopy(ctl["params"]), ret=None, args=[J("12")], kwargs=[["k", J("34")]], name="control",
+                          via=ci, target=2, candidates=[2], same_named=[2], **{"async": True})
+                set_conf(st, conf)
+                steps.append(st)
+                events.append({"ev": "call", "step": 2})
+                g = dict(fns=fns, events=events, steps=steps)
+                g["fmt"], g["ser"], g["validate"] = conf
+                out.append(g)
+    return out
+
+
+def is_registry(case):
+    return "events" in case
+
+
+def eff_step(g, st, so):
+    """the call as it is judged: with the signature of the function whose body ran (`judged`; the function the name
+    resolves to when none ran)"""
+    if not is_registry(g):
+        return st
+    fd = g["fns"][so.get("judged", st["target"])]
+    return dict(st, params=fd["params"], ret=fd.get("ret"), **{"async": fd.get("async", True)})
+
+
+def registry_counts(rep, g, o):
+    """evidence for one registry group; non-trivial iff some call goes to a name under which at least two different
+    function definitions were registered (anywhere) by then"""
+    rep.count("registry_group:cases")
+    rep.count("registry_group:steps", len(g["steps"]))
+    evs = g["events"]
+    ri = [i for i, e in enumerate(evs) if e["ev"] == "receiver"][0]
+    regi = [i for i, e in enumerate(evs) if e["ev"] == "reg"]
+    rep.count("registry_group:receiver_constructed:" + ("after_all_registrations" if all(i < ri for i in regi) else
+                                                        "before_any_registration" if all(i > ri for i in regi) else
+                                                        "between_registrations"))
+    rep.count("registry_group:task_names:%d" % len({str(e["name"]) for e in evs if e["ev"] == "reg"}))
+    for e in evs:
+        if e["ev"] == "reg":
+            rep.count("registry_group:registered:%s/%s/%s" % (e["where"], e["how"], "derived_name" if e["name"] is None else "explicit_name"))
+    regs = [e for e in evs if e["ev"] == "reg"]
+    nt = False
+    for st, so in zip(g["steps"], o["steps"]):
+        defs = {cj(g["fns"][i]) for i in st["same_named"]}
+        places = sorted({e["where"] for e in regs if e["name"] == st["name"]})
+        rep.count("registry_call:name_registered_in:" + "+".join(places) +
+                  (":one_definition" if len(defs) == 1 else ":%d_different_definitions" % len(defs)))
+        if len(st["candidates"]) == 2:
+            rep.count("registry_call:shared_task_overridden_on_the_broker:" +
+                      ("same_function" if st["candidates"][0] == st["candidates"][1] else
+                       "another_definition" if len({cj(g["fns"][i]) for i in st["candidates"]}) == 2 else "twin_definition"))
+        rep.count("registry_call:kiq_through:" + regs[st["via"]]["where"] + "_task" +
+                  ("" if regs[st["via"]]["fn"] == st["target"] else "(of another function of that name)"))
+        ran = so.get("executed", [])
+        rep.count("registry_call:executed:" + ("none" if not ran else "the_documented_target(local, else shared; latest)"
+                                               if ran == [st["target"]] else "another_function"))
+        nt = nt or len(defs) >= 2
+    return nt
+
+
+def registry_oracle(st, so):
+    """`the task function`: one message enters at most one function body, and that function is registered under the
+    message's task name with the worker broker or as a shared task"""
+    ran = so.get("executed", [])
+    bad = []
+    if len(ran) > 1:
+        bad.append(("one message ran more than one task function", ran, [st["target"]]))
+    elif ran and ran[0] not in st["candidates"]:
+        bad.append(("the function that ran is not registered under the message's task name", ran, st["candidates"]))
+    return bad
+
+
+
 def is_group(case):
     return "steps" in case
 
@@ -923,7 +1241,7 @@ def explore(ctx, rep, cases, label, observe_only=False):
             for p, sp in sent_pairs(c):
                 if is_edge(p["ann"], sp):
                     rep.count("edge_value_for_annotation:" + p["ann"])
-        fails = oracle(c, o)
+        fails = oracle(c, o) + (registry_oracle(c, o) if is_registry(whole) else [])
         for what, got, want in fails:
             if observe_only:
                 rep.count("observation:" + what[:60])
@@ -949,6 +1267,8 @@ def explore(ctx, rep, cases, label, observe_only=False):
                                      if p["kind"] in ("pos", "kw")):
                 rep.count("observation:named parameter of a *args/**kwargs signature deviates from the statement")
         branch_counts(rep, c, o)
+        if is_registry(whole) and whole.get("observation"):
+            return      # the receiver's prepared signature is not the running function's: outside the model's run_task
         lit = literal(c, o)
         if lit is None:
             if not observe_only:
@@ -962,7 +1282,11 @@ def explore(ctx, rep, cases, label, observe_only=False):
             rep.case(c, False)
             rep.fail("driver crashed (treated as a failure, never skipped)", c, observed=o["_crash"][-600:])
             continue
-        if is_group(c):
+        if is_registry(c):
+            rep.case(c, registry_counts(rep, c, o))
+            for i, (st, so) in enumerate(zip(c["steps"], o["steps"])):
+                one(eff_step(c, st, so), so, c, i)
+        elif is_group(c):
             rep.case(c, group_counts(rep, c, o))
             for i, (st, so) in enumerate(zip(c["steps"], o["steps"])):
                 one(st, so, c, i)
@@ -1009,10 +1333,20 @@ def run(ctx):
                                      "process per group, each call judged on its own against pydantic on the call's own class"
                                      % (len(tw), ", ".join(TW_KINDS), len(groups)))
     broken = explore(ctx, rep, tw + groups, "same_named_types") or broken
+    rt = registry_table_cases()
+    r4 = ctx.sub_rng("registry")
+    rgroups = [gen_registry_group(r4) for _ in range(ctx.n(110, 3000))]
+    rep.extra["task_registry"] = ("%d table groups (%d pairs of same-named functions that convert / fill one call differently x %d "
+                                  "layouts over the broker's own / the shared / a producer-side registry, both roles; 3 calls "
+                                  "each) + %d random groups of 2-5 calls around one worker broker and one Receiver; each call "
+                                  "judged by the signature of the function whose body ran"
+                                  % (len(rt), len(REG_PAIRS), len(REG_LAYOUTS), len(rgroups)))
+    broken = explore(ctx, rep, rt + rgroups, "task_registry") or broken
     if (broken or any(not o["ok"] for o in rep.obligations)) and not rep.failures:
         r2 = ctx.sub_rng("search")
         explore(ctx, rep, [gen_case(r2) for _ in range(ctx.n(10000, 100000))] +
-                [gen_group(r2) for _ in range(ctx.n(500, 5000))], "search")
+                [gen_group(r2) for _ in range(ctx.n(500, 5000))] +
+                [gen_registry_group(r2) for _ in range(ctx.n(500, 5000))], "search")
     return rep.finish()
 
 
@@ -1026,6 +1360,27 @@ def replay(ctx, path):
         return 1
     if not is_group(c):
         fails = replay_one(ctx, c, o, "replay")
+    elif is_registry(c):
+        print("a sequence in one process around one worker broker and one Receiver (registry `shared` = async_shared_broker, "
+              "`other` = a producer-side broker); task names as taskiq derived them:", o["names"])
+        fails, nr = [], 0
+        for e in c["events"]:
+            if e["ev"] == "reg":
+                print("  register #%d on %-6s name=%r (%s): F%d = %s" % (nr, e["where"], e["name"], e["how"], e["fn"],
+                                                                       "; ".join(sp["name"] + (":" + sp["ann"] if sp["ann"] else "") +
+                                                                                 ("=dep" if sp["dep"] else "=dflt" if sp["default"] else "")
+                                                                                 for sp in c["fns"][e["fn"]]["params"])))
+                nr += 1
+            elif e["ev"] == "receiver":
+                print("  Receiver(worker broker) constructed")
+            else:
+                st, so = c["steps"][e["step"]], o["steps"][e["step"]]
+                print("--- call %d: name=%r kiq through registration #%d; resolves to F%d; bodies entered: %s" % (
+                    e["step"], st["name"], st["via"], st["target"], ["F%d" % k for k in so.get("executed", [])]))
+                for what, got, want in registry_oracle(st, so):
+                    print("VIOLATED:", what, got, want)
+                    fails.append((what, got, want))
+                fails += replay_one(ctx, eff_step(c, st, so), so, "replay%d" % e["step"])
     else:
         print("a sequence of %d calls in one process (%s) over the same-named types:" % (
             len(c["steps"]), "one shared receiver" if c.get("shared") else "one receiver per call"))
